@@ -66,10 +66,11 @@ def cssRatio (u v : KU) : Option Ratio :=
       else none
     | _, _ => none
 
-/-- enclosure of π to 30 decimals: `piLo / piDen < π < piHi / piDen` -/
-def piDen : Nat := 1000000000000000000000000000000
-def piLo : Nat := 3141592653589793238462643383279
-def piHi : Nat := 3141592653589793238462643383280
+/-- enclosure of π to 20 decimals: `piLo / piDen < π < piHi / piDen`
+(proved about `Real.pi` in `Theorems/C11Pi.lean`; relative width 3·10⁻²¹ ≪ 2⁻⁵³) -/
+def piDen : Nat := 100000000000000000000
+def piLo : Nat := 314159265358979323846
+def piHi : Nat := 314159265358979323847
 
 /-- mantissa (with the implicit bit) of a finite f64 bit pattern -/
 def f64Mant (b : Nat) : Nat :=
